@@ -71,5 +71,15 @@ def nested(xs):
     def f(v):
         return v * 2 if v % 2 else v
     return tuple(f(x) for x in xs)
+def fsets(xs):
+    seen = set()
+    out = []
+    for i in range(len(xs) - 1):
+        key = (frozenset((xs[i] % 3, xs[i + 1] % 3)), xs[i] % 2 == xs[i + 1] % 2)
+        if key in seen:
+            continue
+        seen.add(key)
+        out.append(i)
+    return tuple(out)
 def sorted_key(xs):
     return tuple(sorted(xs, key=lambda v: (-v % 3, v)))
